@@ -142,6 +142,9 @@ func TestWorker(t *testing.T) {
 			break
 		}
 		seed := start + uint64(i)*step
+		if outPath != "" {
+			os.WriteFile(outPath+".cur", []byte(strconv.FormatUint(seed, 10)), 0644)
+		}
 		plan := def.Gen(seed, tier)
 		if os.Getenv("ZSIM_DUMPPLAN") != "" && planDir != "" {
 			writeJSON(fmt.Sprintf("%s/%s-%d.gen.json", planDir, prop, seed), plan)
